@@ -727,6 +727,40 @@ def e2_pool(decorated: list[type]) -> list[tuple[str, Any]]:
         if hasattr(x, "_numpycode") and x not in seen:
             seen.append(x)
             pool.append((label, x))
+    # composite arguments: a printer that interpolates an argument into a template without parentheses is only wrong when the
+    # argument prints with lower precedence than the template's operator (a sum, a negation, a scalar multiple)
+    from ampform.sympy._array_expressions import ArraySum
+    from sympy.tensor.array.expressions.array_expressions import ArraySymbol
+
+    def other_copy(e):
+        ren = {}
+        for sym in e.free_symbols:
+            ren[sym] = sp.Symbol(sym.name + "_b", **sym.assumptions0)
+        return e.xreplace(ren)
+
+    base = list(pool)
+    for label, x in base:
+        if "#" in label:
+            continue  # class-level entries only
+        done = 0
+        for i, arg in enumerate(x.args):
+            if not isinstance(arg, sp.Basic) or not arg.free_symbols or done >= 2:
+                continue
+            is_array = bool(arg.atoms(ArraySymbol)) or isinstance(arg, ArraySymbol)
+            variants = [("sum", lambda a: a + other_copy(a)), ("neg", lambda a: -a), ("scaled", lambda a: 2 * a)]
+            if is_array:
+                variants.append(("arraysum", lambda a: ArraySum(a, other_copy(a))))
+            for kind, f in variants:
+                try:
+                    new_args = list(x.args)
+                    new_args[i] = f(arg)
+                    y = x.func(*new_args)
+                except Exception:  # noqa: BLE001
+                    continue
+                if y not in seen and hasattr(y, "_numpycode"):
+                    seen.append(y)
+                    pool.append((f"{label}|arg{i}={kind}", y))
+            done += 1
     return pool
 
 
